@@ -642,3 +642,48 @@ def validate_node_types(
         if node_type not in supported_types:
             supported_names = [t.__name__ for t in supported_types]
             raise TypeError(f"Runner does not support node type '{node_type.__name__}'. Supported types: {supported_names}")
+
+
+def validate_map_inputs(
+    graph: Graph,
+    values: dict[str, Any],
+    map_over: list[str],
+    *,
+    entrypoint: str | None = None,
+    select: Any = None,
+    on_internal_override: Literal["ignore", "warn", "error"] = "warn",
+) -> None:
+    """Reject a map() call that misses a required input before anything is emitted.
+
+    Every item of a map carries the same input names, so a missing input is
+    missing for all of them: it is reported once, up front, as for run() --
+    before the map-level run-start event reaches any event processor. Anything
+    else a single item may complain about is left to that item's own run.
+
+    Raises:
+        MissingInputError: If a ``map_over`` name has no value to iterate over,
+            or a required input of the graph is not provided.
+    """
+    import warnings
+
+    absent = [name for name in map_over if name not in values]
+    if absent:
+        raise MissingInputError(missing=absent, provided=list(values.keys()))
+
+    # names only: one (arbitrary) element stands for each mapped-over sequence
+    item_values = {name: (None if name in map_over else value) for name, value in values.items()}
+    try:
+        with warnings.catch_warnings():
+            warnings.simplefilter("ignore")
+            validate_inputs(
+                graph,
+                item_values,
+                entrypoint=entrypoint,
+                selected=resolve_runtime_selected(select, graph),
+                on_internal_override=on_internal_override,
+            )
+    except MissingInputError:
+        raise
+    except Exception:  # noqa: BLE001 - reported by the item's own run, as before
+        return
+
